@@ -71,7 +71,8 @@ func (c *TraitOf[V]) PrepareRead(ctx context.Context, cacheEntry *TraitEntryOf[V
 	if c.Log.logDebug != nil {
 		c.Log.logDebug(ctx, "cache hit",
 			"name", c.Config.Name,
-			"entry", cacheEntry,
+			// Passing a copy, entry can be updated (expired, served) concurrently with logging.
+			"entry", &TraitEntryOf[V]{K: cacheEntry.K, V: cacheEntry.V, E: expireAt, C: atomic.LoadInt64(&cacheEntry.C)},
 		)
 	}
 
